@@ -88,6 +88,28 @@ C['C14'] = dict(level=MC, engine='E2+E1', design='§2 C14',
    technique='symbolic execution of the unmodified EquationParser.ParseString on semi-symbolic strings (symbolic characters, z3 Ints) with all comment texts up to the length bound; SMT equivalence of parsed right-hand sides over enumerated line forms',
    text='The real ParseString runs on eight block sites (equation, last endogenous, lag, initial-condition, marker, exogenous, parameter and comment-only lines) whose comment text is a symbolic string of every length 0..12 (16 thorough) over printable ASCII; every feasible path is explored and the parser lists must equal those of the comment-free block (for a stand-alone comment line carrying the marker word: those of the block with the marker there); witnesses are concrete strings from the z3 model. Enumerated line forms x spacings x lag notations x shuffles are classified and their parsed right-hand sides shown equivalent to the written ones; descriptions/long names from a token alphabet are pushed through Model.main() (enumerated).',
    note='Trusted: SymStr duck class (only the str methods the parser uses; collapses to str when no symbolic character remains). Non-ASCII text outside.')
+
+# --- additions after the seeded-change rounds 3-4 (what the strengthened checks also do) -------------------------------------------
+EXTRA = {
+ 'C01': ' Topologies include zone-wide objects placed outside the government region, a sector in the numeraire country, treasury-issued money, custom codes and foreign residual suppliers; the solver ladder starts with a linear abstraction (definitions substituted, products distributed, monomials abstracted; UNSAT sound) and assumes non-zero divisors.',
+ 'C02': ' Also: the same solves with a same-named neighbour solver parsed and solved before every period, and with step tracing of the last period (dependent-first decorative block).',
+ 'C03': ' Also (E2): the real solver with reduction on and off over a generated family of 87 alias-chain blocks (root kind x order x user placement), exogenous values of k>=1 symbolic, step tracing off/on, every variable equal in every period up to 1e-5 relative; the k=0 clause runs CrossHair on the same generated family.',
+ 'C06': ' Flow-variable pre-states include definitions built through AddVariable + AddTermToEquation; exclusions registered for a same-coded sector of another country.',
+ 'C09': ' Exogenous-path transport (every public route, after / without the builder book paths) is a concrete side-check.',
+ 'C10': ' Any solver-level horizon None/0..3 over a block horizon; initial condition stated for the automatic / user time axis.',
+ 'C11': ' Reserved names are tried with reduction on and off; every model-level invalid-declaration scenario is replayed with another model started / half built / solved after each of its construction calls.',
+ 'C12': ' Also: histories of <= 3 (4) additions of two caller-held Term objects (symbolic coefficients) or strings into two equations and the constructor form; long numeric literals.',
+ 'C13': ' Also the object-level route Equation(...).ReplaceTokensFromLookup; number-like names and map keys spelled like tails of numeric literals.',
+ 'C14': ' Sites followed by blank lines; variable names from the alphabet of the parser structural tokens.',
+ 'C15': ' Also blocks whose period is itself iterated (bound from the solver exit test at the block own tolerance) and a search failing while stepping (solver left untouched).',
+ 'C16': ' Also every sequence of <= 4 renders interleaved over the three series groups, each text compared with a reference rendered in a pristine process; Model.MaxTime symbolic and independent of the stored length.',
+ 'C17': ' Also: construction interleavings (8 topologies x 2 orders x every construction point x 4 interruptions) with the emitted system equivalent to the undisturbed build; re-parse after blocks with other horizons; a solver between parse and solve.',
+ 'C18': ' Also federations with zone-wide objects in a region, a default-currency region, and economies declared inside one another.',
+ 'C19': ' Also a solved block with one extra line that defines no variable (phantom initial condition etc.).',
+ 'C20': ' Also constants in every float() spelling, single-variable block, lag of a lag, block variables named like the template locals (one collision recorded as a known finding); stated constants / initial conditions are the k=0 values.',
+}
+for _pid, _t in EXTRA.items():
+    C[_pid]['text'] = C[_pid]['text'] + _t
 PENDING = {}
 ALL = ['C%02d' % i for i in range(1, 21)]
 checks = []
